@@ -279,7 +279,7 @@ def n_workers():
 # evidence
 
 def write_evidence(prop, doc):
-    d = os.path.join(VERIF_ROOT, 'evidence')
+    d = os.environ.get('VERIF_EVIDENCE_DIR') or os.path.join(VERIF_ROOT, 'evidence')
     os.makedirs(d, exist_ok=True)
     path = os.path.join(d, prop + '.json')
     tmp = path + '.tmp'
@@ -291,7 +291,7 @@ def write_evidence(prop, doc):
 
 
 def write_replay(prop, record):
-    d = os.path.join(VERIF_ROOT, 'replays')
+    d = os.environ.get('VERIF_REPLAY_DIR') or os.path.join(VERIF_ROOT, 'replays')
     os.makedirs(d, exist_ok=True)
     name = '%s-%s-%s.json' % (prop, record.get('seed'), sha(record)[:8])
     path = os.path.join(d, name)
